@@ -447,6 +447,9 @@ func genGbOps(g *Gen, tier string, w *bufio.Writer, salt int, small bool) {
 			share = map[int]int{5: 3, 6: 10}
 		}
 	}
+	if small {
+		nrand /= 4
+	}
 	cfgs := sqlTriggerConfigs(0)
 	ex := exoticTriggerConfigs(0)
 	for n := 0; n <= maxLen; n++ {
